@@ -28,11 +28,12 @@ const (
 	TVv // hw.V.ValM, reached with Struct(hw.V{}) (value instance)
 	TVp // (*hw.V).PtrM, reached with Struct(&hw.V{}) (pointer instance)
 	TLm2 // (*hw.S).m2, a second unexported method of S
+	TLoop // hw.Loop: mockable, but an apply with an origin placeholder must be refused
 	NTargets
 )
 
 // TargetNames for printing.
-var TargetNames = []string{"F0", "F1", "(*S).M", "(*S).m", "G", "hw.g2", "own.g2", "X.A", "V.ValM", "(*V).PtrM", "(*S).m2"}
+var TargetNames = []string{"F0", "F1", "(*S).M", "(*S).m", "G", "hw.g2", "own.g2", "X.A", "V.ValM", "(*V).PtrM", "(*S).m2", "Loop"}
 
 //go:noinline
 func g2(a int) int {
@@ -48,7 +49,18 @@ func g2(a int) int {
 func CallOwnG2(a int) int { return g2(a) }
 
 // Original results: a + Orig[t]; X.A unmocked panics (nil interface).
-var Orig = []int{100, 200, 300, 400, 500, 600, 650, 0, 150, 250, 450}
+var Orig = []int{100, 200, 300, 400, 500, 600, 650, 0, 150, 250, 450, 0}
+
+// OrigOf is the original result of target t for argument a.
+func OrigOf(t Target, a int) int {
+	if t == TLoop {
+		for a&1 == 0 && a != 0 {
+			a >>= 1
+		}
+		return a*3 + 18
+	}
+	return a + Orig[t]
+}
 
 // Call calls target t with argument a.
 func Call(t Target, a int) int {
@@ -75,6 +87,8 @@ func Call(t Target, a int) int {
 		return (&hw.V{K: 1}).PtrM(a)
 	case TLm2:
 		return hw.CallLowerM2(&hw.S{K: 1}, a)
+	case TLoop:
+		return hw.Loop(a)
 	}
 	panic("bad target")
 }
@@ -103,6 +117,8 @@ func EntryPC(t Target) uintptr {
 		return pcByName(hw.Pkg + ".(*V).PtrM")
 	case TLm2:
 		return pcByName(hw.Pkg + ".(*S).m2")
+	case TLoop:
+		return reflect.ValueOf(hw.Loop).Pointer()
 	}
 	return 0
 }
@@ -145,11 +161,15 @@ const (
 	KCancel
 	KReset // builder-wide; T ignored
 	KPkg   // builder.Pkg(hw.Pkg); T ignored
+	// KApplyORefused: Origin(&placeholder).Apply(cb) on Loop while nobody mocks it: the prologue cannot
+	// be relocated, so the apply has to be refused (a panic, recovered like a test would) and to leave
+	// everything as it was
+	KApplyORefused
 	NKinds
 )
 
 // KindNames for printing.
-var KindNames = []string{"ApplyA", "ApplyB", "OriginApply", "Return", "When(1).Return", "Cancel", "Reset", "Pkg"}
+var KindNames = []string{"ApplyA", "ApplyB", "OriginApply", "Return", "When(1).Return", "Cancel", "Reset", "Pkg", "OriginApply(must be refused)"}
 
 // Op is one operation of a history.
 type Op struct {
@@ -244,6 +264,8 @@ func (w *World) lookup(b int, t Target) *handle {
 		h.unexported = bd.Struct(&hw.S{}).ExportMethod("m")
 	case TLm2:
 		h.unexported = bd.Struct(&hw.S{}).ExportMethod("m2")
+	case TLoop:
+		h.exported = bd.Func(hw.Loop)
 	case TG2hw, TG2own:
 		// which g2 is resolved depends on the builder's package override (model decides t)
 		h.unexported = bd.ExportFunc("g2")
@@ -362,6 +384,14 @@ func (w *World) Do(op Op) (panicMsg string, panicked bool) {
 					}
 					return bigStack(func() int { return w.og(a) }) + 30000
 				})
+			}
+		case KApplyORefused:
+			o := hw.OLoop
+			_, refused := vk.Try(func() {
+				h.exported.Origin(&o).Apply(func(a int) int { return o(a) + 30000 })
+			})
+			if !refused {
+				panic("an apply with an origin placeholder on a function whose first 13 bytes are a branch target was accepted")
 			}
 		case KReturn:
 			v := 700 + w.nRet[op.B][t]
